@@ -57,6 +57,14 @@ def begin_case():
     reset_process_globals()  # e.g. pipefunc._utils._cached_load, a process-wide lru_cache keyed by (path, mtime, size)
 
 
+def step_cap_for(w, base=20000):
+    """Yield budget for one simulated process running workload `w`: a run does a bounded number of yields per stored
+    element (~15 with a process pool and file storage), so a fixed cap calls a large healthy run `no-progress`."""
+    from sim.genpipe import n_elements
+
+    return base + 100 * n_elements(w)
+
+
 _salt = [0, 0]  # [processes started in this case, salt of the latest one]
 
 
